@@ -8,7 +8,7 @@
    occurrence). *)
 From Coq Require Import Permutation.
 From VF Require Import Common.Verdict Outputs.Model Outputs.Spec Outputs.Corr Outputs.Proofs
-  Outputs.ProofsMain Outputs.ProofsP Outputs.Examples.
+  Outputs.ProofsMain Outputs.ProofsP Outputs.ProofsFrame Outputs.Examples.
 
 (* A command is accepted exactly if its working directory and all of its
    output paths are relative, free of NUL bytes and never leave the input
@@ -85,31 +85,41 @@ Theorem outputs_exact : forall D (D_eqb : D -> D -> bool) (hash : blob D -> D),
 Proof. exact outputs_exact_full. Qed.
 Print Assumptions outputs_exact.
 
+(* CreateParentDirectories, frame: for an input root that is a directory
+   tree (names within a listing distinct, hereditarily), whether or not an
+   error is raised, every node of the input root is still there unchanged
+   (directories may have gained entries) and everything added is a directory
+   on the way to a declared output's parent: p_parents_frame, the predicate
+   Corr.v evaluates, is "". *)
+Theorem parents_frame : forall c h pre,
+  new_hierarchy c = Some h -> names_distinct (Dir pre) = true ->
+  p_parents_frame c pre (snd (mk_parents (h_root h) pre)) = ""%string.
+Proof. exact p_parents_frame_model. Qed.
+Print Assumptions parents_frame.
+
 (* The monitor that Corr.v evaluates on implementation traces (p_reject,
-   p_parents_exist, p_upload of Spec.v) holds of every run of the model:
-   every command, input root and action.  The table the monitor looks Trees
-   up in is what the run wrote to the CAS.
-   Partial: the full monitor p_parents = p_parents_frame ("the input root is
-   not damaged and only ancestors of declared outputs are created") followed
-   by p_parents_exist; the frame part is evaluated on implementation traces
-   but not proved of the model.  Full statement:
-     ... | ParentsFailed mid => ... /\ p_parents c pre false mid = ""
-         | Ran mid r => ... /\ p_parents c pre true mid = "" /\ ... *)
-Theorem model_satisfies_P_partial : forall D (D_eqb : D -> D -> bool) (hash : blob D -> D),
+   p_parents = p_parents_frame then p_parents_exist, p_upload of Spec.v)
+   holds of every run of the model: every command, every input root that is
+   a directory tree, every action.  The table the monitor looks Trees up in
+   is what the run wrote to the CAS.  [names_distinct] is checked by Corr.v
+   of every recorded input root; it is needed because [extends] finds an
+   entry by its name (Example frame_needs_distinct_names). *)
+Theorem model_satisfies_P : forall D (D_eqb : D -> D -> bool) (hash : blob D -> D),
   (forall a b, D_eqb a b = true <-> a = b) ->
   (forall m1 m2 : dirmsg D, hash (BDirectory m1) = hash (BDirectory m2) -> m1 = m2) ->
   (forall t1 t2 : list (bool * dirmsg D), hash (BTree t1) = hash (BTree t2) -> t1 = t2) ->
   forall c force pre action,
+  names_distinct (Dir pre) = true ->
   match run_action D_eqb hash c force pre action with
   | Rejected => p_reject c false false = ""%string
-  | ParentsFailed mid => p_reject c true false = ""%string /\ p_parents_exist c pre false mid = ""%string
+  | ParentsFailed mid => p_reject c true false = ""%string /\ p_parents c pre false mid = ""%string
   | Ran mid r =>
-    p_reject c true false = ""%string /\ p_parents_exist c pre true mid = ""%string /\
+    p_reject c true false = ""%string /\ p_parents c pre true mid = ""%string /\
     p_upload D_eqb hash (table_of D hash r) c force (action mid)
              (r_files r) (r_dirs r) (r_syms r) (r_err r) = ""%string
   end.
-Proof. exact model_satisfies_P_lemma. Qed.
-Print Assumptions model_satisfies_P_partial.
+Proof. exact model_satisfies_P_full_lemma. Qed.
+Print Assumptions model_satisfies_P.
 
 (* Non-vacuity.  A recorded run of the implementation with aliased output
    files, an output directory declared twice whose Tree shares two identical
@@ -139,3 +149,23 @@ Qed.
 Example escaping_command : acceptable (mkCmd "a" ["../../x"%string] false) = false /\
                            acceptable (mkCmd "a/.." ["b/../c"%string; "."%string] false) = true.
 Proof. vm_compute. split; reflexivity. Qed.
+
+(* The frame predicate identifies entries by name: on a listing with a name
+   twice (not a directory) it reports damage although nothing was touched.
+   Hence the hypothesis of parents_frame / model_satisfies_P. *)
+Example frame_needs_distinct_names :
+  let c := mkCmd "" [] false in
+  let pre := [("a"%string, File false ""); ("a"%string, Dir [])] in
+  exists h, new_hierarchy c = Some h /\ mk_parents (h_root h) pre = (true, pre) /\
+            p_parents_frame c pre pre = "input-root-damaged"%string.
+Proof. eexists. vm_compute. repeat split. Qed.
+
+(* ... and is not vacuous: directories are created next to existing content,
+   below an existing directory, and the monitor accepts. *)
+Example parents_frame_nontrivial :
+  let c := mkCmd "w" ["x/y/out"%string; "../z/o2"%string] false in
+  let pre := [("w"%string, Dir [("keep"%string, File true "data"); ("x"%string, Dir [("old"%string, Symlink "t")])])] in
+  exists h mid, new_hierarchy c = Some h /\ names_distinct (Dir pre) = true /\
+    mk_parents (h_root h) pre = (true, mid) /\ entries_eqb mid pre = false /\
+    p_parents c pre true mid = ""%string.
+Proof. eexists. eexists. vm_compute. repeat split. Qed.
